@@ -28,7 +28,8 @@ type ApCase struct {
 	Init     []int  `json:"init,omitempty"`
 	Ops      []ApOp `json:"ops,omitempty"`
 	Via      string `json:"via,omitempty"`      // buffer mode: NewBufferTransport | NewDefaultTransport
-	Readable int    `json:"readable,omitempty"` // generic: ReadableLen of the wrapped object (-1: no such method)
+	Readable int    `json:"readable,omitempty"` // generic: what ReadableLen of the wrapped object returns
+	NoLen    bool   `json:"nolen,omitempty"`    // generic: the wrapped object has no ReadableLen method
 	Fn       string `json:"fn,omitempty"`       // registry: read | write | check
 	Reg      bool   `json:"reg,omitempty"`
 	CbErr    bool   `json:"cberr,omitempty"`
@@ -58,7 +59,7 @@ func runApCase(raw json.RawMessage, w *TraceWriter) {
 	switch c.Mode {
 	case "generic":
 		var rw io.ReadWriter
-		if c.Readable < 0 {
+		if c.NoLen {
 			rw = &rwOnly{}
 		} else {
 			rw = &rwReadable{n: c.Readable}
@@ -69,7 +70,11 @@ func runApCase(raw json.RawMessage, w *TraceWriter) {
 		if rem != ^uint64(0) {
 			r = int(rem)
 		}
-		w.Ev("dt", "readable", c.Readable, "rem", r)
+		rd := c.Readable
+		if c.NoLen {
+			rd = -1
+		}
+		w.Ev("dt", "readable", rd, "rem", r)
 		// the generic transport has no life cycle of its own: always open, Open / Flush / Close do nothing and succeed
 		e1, e2, e3 := t.Open(), t.Flush(context.Background()), t.Close()
 		rem2 := t.RemainingBytes()
@@ -312,9 +317,10 @@ func genApCases(c *Ctx) []json.RawMessage {
 			}
 		}
 	}
-	for _, r := range []int{-1, 0, 1, 2, 4096, 1 << 30, -5} {
+	for _, r := range []int{-1, 0, 1, 2, 3, 4096, 1 << 30, 1<<31 - 1, 1 << 31, 1 << 40, 1<<63 - 1, -2, -5, -7, -4096, -1 << 31, -1<<31 - 1, -1 << 62, -1 << 63} {
 		out = append(out, mustJSON(ApCase{Mode: "generic", Readable: r}))
 	}
+	out = append(out, mustJSON(ApCase{Mode: "generic", NoLen: true}))
 	for _, fn := range []string{"read", "write", "check"} {
 		for _, reg := range []bool{false, true} {
 			for _, ce := range []bool{false, true} {
@@ -326,7 +332,7 @@ func genApCases(c *Ctx) []json.RawMessage {
 }
 
 func checkC19(c *Ctx) {
-	c.rule = "MC: all operation sequences <= 5 over both handles keep FIFO order and Remaining = unread length in the single-buffer model. TRACE: every sequence of <= 3 (thorough 4) operations from {Write 0/1/2 bytes, Read 0/1/2, Reset on either handle, Close, RemainingBytes} over empty and pre-filled buffers, through NewBufferTransport and NewDefaultTransport(*bytes.Buffer), plus random longer sequences; after every step both handles (buffer Len/Bytes, transport RemainingBytes) must show the model state; generic transport over objects with/without ReadableLen (values -5..2^30); registered / unregistered read, write and check callbacks (argument identity, result pass-through, specific error)."
+	c.rule = "MC: all operation sequences <= 5 over both handles keep FIFO order and Remaining = unread length in the single-buffer model. TRACE: every sequence of <= 3 (thorough 4) operations from {Write 0/1/2 bytes, Read 0/1/2, Reset on either handle, Close, RemainingBytes} over empty and pre-filled buffers, through NewBufferTransport and NewDefaultTransport(*bytes.Buffer), plus random longer sequences; after every step both handles (buffer Len/Bytes, transport RemainingBytes) must show the model state; generic transport over objects with/without ReadableLen (every boundary of int: negative values incl. -2, MinInt32, MinInt64; 0; positives up to MaxInt64); registered / unregistered read, write and check callbacks (argument identity, result pass-through, specific error)."
 	c.MC("MC_ApacheBridge.tla", "MC_ApacheBridge.cfg", 4)
 	c.TraceCheck(famAp, genApCases(c))
 	c.Assume("registry globals are saved/restored by the driver; cases run sequentially")
